@@ -91,6 +91,33 @@ fn judge(items: &Vec<ItemSpec>, printer: u8) -> CaseResult {
                 format!("printed {:?}; parsed back [{}] but the program is [{}]", text, parsed.exec.iter().map(|x| x.render()).collect::<Vec<_>>().join(" | "), items.iter().map(|x| x.render()).collect::<Vec<_>>().join(" | ")),
             ));
         }
+        // the result depends on the text and the registry only: the same text parsed on this
+        // thread with an EMPTY registry gives the same tree with every instruction token as a
+        // name, and a following parse with the full registry gives the program again
+        if hash_str(&text) % 3 == 0 {
+            fn as_names(t: &ItemSpec) -> ItemSpec {
+                match t {
+                    ItemSpec::List(v) => ItemSpec::List(v.iter().map(as_names).collect()),
+                    ItemSpec::Instr(n) => ItemSpec::Name(n.clone()),
+                    x => x.clone(),
+                }
+            }
+            let want: Vec<ItemSpec> = items.iter().map(as_names).collect();
+            let got = guarded(|| {
+                let mut st = pushr::push::state::PushState::new();
+                let empty = pushr::push::instructions::InstructionSet::new();
+                pushr::push::parser::PushParser::parse_program(&mut st, &empty, &text);
+                StateSpec::snapshot(&st).exec
+            })
+            .map_err(|(loc, msg)| Fail::new(format!("C11/parse/panic@{}", loc), format!("empty registry: {} | text {:?}", msg, text)))?;
+            if got != want {
+                return Err(Fail::new("C11/roundtrip/empty-registry", format!("text {:?} parsed with an empty instruction set gives [{}] (instruction tokens must come back as names)", text, got.iter().map(|x| format!("{:?}", x)).collect::<Vec<_>>().join(" | ").chars().take(300).collect::<String>())));
+            }
+            let again = parse_into(&StateSpec::default(), &text).map_err(|(loc, msg)| Fail::new(format!("C11/parse/panic@{}", loc), format!("{}: {} | text {:?}", loc, msg, text)))?;
+            if again.exec != *items {
+                return Err(Fail::new("C11/roundtrip/registry-remembered-between-calls", format!("text {:?}: parsing with the full registry after an empty-registry parse no longer gives the program", text)));
+            }
+        }
         // pushr's own deep equality agrees
         for (a, b) in parsed.exec.iter().zip(items.iter()) {
             if !Item::equals(&a.to_item(), &b.to_item()) {
@@ -147,7 +174,7 @@ pub fn run(ctx: &Ctx) -> PropReport {
         rep.push(run_sharded(
             ctx,
             sub,
-            ctx.tier.pick(30_000, 1_000_000),
+            ctx.tier.pick(150_000, 1_500_000),
             move || (prop::collection::vec(tree(wf, d, sz), 1..=5), 0u8..3),
             |(items, p): &(Vec<ItemSpec>, u8)| judge(items, *p),
             |(items, p)| json!({"items": items.iter().map(|x| x.to_json()).collect::<Vec<_>>(), "printer": p, "text": items.iter().map(print_item).collect::<Vec<_>>().join(" ")}),
@@ -171,7 +198,7 @@ pub fn run(ctx: &Ctx) -> PropReport {
     deep.sample(json!({"text": "( 2 ( 1 ( 0 ( 7 leaf ) TRUE ) FALSE ) TRUE ) ... up to 300 levels"}));
     rep.push(deep);
     // generator output
-    let n = ctx.tier.pick(3_000u64, 100_000u64);
+    let n = ctx.tier.pick(15_000u64, 200_000u64);
     let mut g = par_map(ctx, "random-code-generator", n, |i, rep| {
         let size = 1 + (i as usize * 7) % 200;
         rep.evaluations += 1;
